@@ -21,6 +21,10 @@ def optFV (j : Json) (k : String) : R (Option (FV Float)) := do
   let v := fieldD j k Json.null
   if v.isNull then pure none else pure (some (cls (← fl v)))
 
+def optFl (j : Json) (k : String) : R (Option Float) := do
+  let v := fieldD j k Json.null
+  if v.isNull then pure none else pure (some (← fl v))
+
 /-- op `C02.likelihood` -/
 def likelihoodOp (j : Json) : R Json := do
   let env : Env Float := {
@@ -30,11 +34,12 @@ def likelihoodOp (j : Json) : R Json := do
   let args ← fls (← field j "args")
   let om ← fl (← field j "om")
   let ok ← fl (← field j "ok")
+  let h0 ← optFl j "h0"
   let lens := (← fls (← field j "lens")).map cls
   let sne ← optFV j "sne"
   let kde ← optFV j "kde"
   let prior ← optFV j "prior"
-  match likelihood 1.7976931348623157e308 env args om ok (fun _ => lens) (fun _ => sne) (fun _ => kde) (fun _ => prior) with
+  match likelihood 1.7976931348623157e308 env args om ok h0 (fun _ => lens) (fun _ => sne) (fun _ => kde) (fun _ => prior) with
   | .error e => throw e
   | .ok (v, ev) => pure (Json.mkObj [("value", jfv v), ("evaluated", Json.bool ev)])
 
